@@ -147,7 +147,7 @@ def rule_alloc_bounded(ctx):
                 continue
             wire += 1
             where = f.qname.split("::", 1)[-1][-60:]
-            if base[0] == "call" and base[1] == "std::cmp::min":
+            if base[0] == "call" and base[1] in ("std::cmp::min", "std::cmp::Ord::min"):
                 ctx.ob(R, "alloc in %s" % where, True, "size = min(.., bound): %s" % show(S)[:100], f.loc(c["t"].get("ln")))
                 continue
 
